@@ -196,6 +196,38 @@ def derive_pdb(text, variant, rnd):
     return "\n".join(out) + "\n"
 
 
+def unifier_gen_item(out, item, rep, tmpdir):
+    """`unifier` on two to four copies of one corpus PDB file that disagree on residue identifiers (another chain
+    letter, shifted numbers, hydrogens dropped): the vote on the common identifiers has ties to break."""
+    import random
+
+    rnd = random.Random(item["gen_seed"])
+    with open(item["source"]) as f:
+        lines = f.read().splitlines()
+
+    def variant(kind):
+        outl = []
+        for l in lines:
+            if l.startswith(("ATOM  ", "HETATM", "TER")) and len(l) > 26:
+                if kind == "chain":
+                    l = l[:21] + "B" + l[22:]
+                elif kind == "shift" and l[22:26].strip().lstrip("-").isdigit():
+                    l = l[:22] + "%4d" % (int(l[22:26]) + 100) + l[26:]
+                elif kind == "chainshift" and l[22:26].strip().lstrip("-").isdigit():
+                    l = l[:21] + "C" + "%4d" % (int(l[22:26]) + 7) + l[26:]
+                elif kind == "nohydrogen" and l.startswith("ATOM") and l[76:78].strip() == "H":
+                    continue
+            outl.append(l)
+        return "\n".join(outl) + "\n"
+
+    kinds = ["same"] + rnd.sample(["chain", "shift", "chainshift", "nohydrogen", "chain"], rnd.randint(1, 3))
+    rnd.shuffle(kinds)
+    inputs = {"in/u%d.pdb" % k: variant(kind) for k, kind in enumerate(kinds)}
+    argv = ["unifier", "-o", "{out}/unified", "-f", item.get("format", "keep")] + ["{out}/" + n for n in sorted(inputs)]
+    emit(out, item["id"], "generated_inputs", rep, repr(kinds), False)
+    tool_item(out, {"id": item["id"], "module": "rnapolis.unifier", "argv": argv}, rep, tmpdir, nontrivial=True, inputs=inputs)
+
+
 def derived_item(out, item, rep, tmpdir):
     import random
 
@@ -340,14 +372,20 @@ def bpseq_item(out, item, rep, tmpdir=None):
             emit(out, iid, "graphviz_source", rep, graphviz_source(bp, tmpdir), has_pairs)
 
 
-def tool_item(out, item, rep, tmpdir, nontrivial=None):
-    """One of the package's command-line tools run in-process: stdout plus every file it wrote."""
+def tool_item(out, item, rep, tmpdir, nontrivial=None, inputs=None):
+    """One of the package's command-line tools run in-process: stdout plus every file it wrote.  `inputs`
+    ({relative name: text}) are generated input files, written into the output directory first so that every
+    path the tool prints can be normalised."""
     import importlib
     import shutil
 
     outdir = os.path.join(tmpdir, "tool-out")
     shutil.rmtree(outdir, ignore_errors=True)
     os.makedirs(outdir)
+    for name, text in (inputs or {}).items():
+        os.makedirs(os.path.dirname(os.path.join(outdir, name)), exist_ok=True)
+        with open(os.path.join(outdir, name), "w") as f:
+            f.write(text)
     argv = [a.replace("{out}", outdir) for a in item["argv"]]
     module = importlib.import_module(item["module"])
     buf, err = io.StringIO(), io.StringIO()
@@ -485,6 +523,42 @@ def adapter_gen_item(out, item, rep, tmpdir):
 def main():
     manifest_path, out_path = sys.argv[1], sys.argv[2]
     sys.path.insert(0, os.environ.get("VERIF_REPO_SRC", "/repo/src"))
+    skew_days = int(os.environ.get("VERIF_C14_CLOCK_SKEW_DAYS", "0") or 0)
+    if skew_days:
+        # the wall clock behind a seam: this interpreter lives `skew_days` days in the future, so that an output which
+        # carries a date (not only one that carries a time of day) differs between interpreters.  Installed before
+        # the package is imported; monotonic clocks (durations) are left alone.
+        import datetime as _dt
+
+        _real_time = time.time
+        _offset = skew_days * 86400.0
+        time.time = lambda: _real_time() + _offset
+        _real_localtime, _real_gmtime = time.localtime, time.gmtime
+        time.localtime = lambda secs=None: _real_localtime(time.time() if secs is None else secs)
+        time.gmtime = lambda secs=None: _real_gmtime(time.time() if secs is None else secs)
+        _real_strftime = time.strftime
+        time.strftime = lambda fmt, t=None: _real_strftime(fmt, time.localtime() if t is None else t)
+
+        class _SkewedDateTime(_dt.datetime):
+            @classmethod
+            def now(cls, tz=None):
+                return cls.fromtimestamp(time.time(), tz)
+
+            @classmethod
+            def utcnow(cls):
+                return cls.fromtimestamp(time.time(), _dt.timezone.utc).replace(tzinfo=None)
+
+            @classmethod
+            def today(cls):
+                return cls.fromtimestamp(time.time())
+
+        class _SkewedDate(_dt.date):
+            @classmethod
+            def today(cls):
+                return cls.fromtimestamp(time.time())
+
+        _dt.datetime = _SkewedDateTime
+        _dt.date = _SkewedDate
     level = os.environ.get("VERIF_C14_LOGLEVEL")
     if level in ("DEBUG", "INFO"):
         # log verbosity is part of the environment an output must not depend on: this interpreter runs with the
@@ -500,9 +574,9 @@ def main():
     tmpdir = tempfile.mkdtemp(prefix="c14-", dir=manifest["tmp"])
     os.environ["TMPDIR"] = tmpdir
     os.environ.pop("TMP", None)
-    t0 = time.time()
+    t0 = time.monotonic()
     with open(out_path, "w") as out:
-        out.write("H hashseed=%s python=%s loglevel=%s\n" % (os.environ.get("PYTHONHASHSEED"), sys.version.split()[0], level))
+        out.write("H hashseed=%s python=%s loglevel=%s clock_skew_days=%d\n" % (os.environ.get("PYTHONHASHSEED"), sys.version.split()[0], level, skew_days))
         import pulp
 
         default_solver = pulp.LpSolverDefault
@@ -521,7 +595,7 @@ def main():
             for item in items:
                 if stopped:
                     break
-                t1 = time.time()
+                t1 = time.monotonic()
                 try:
                     if item["type"] == "file":
                         file_item(out, item, rep, tmpdir)
@@ -531,16 +605,18 @@ def main():
                         adapter_gen_item(out, item, rep, tmpdir)
                     elif item["type"] == "derived":
                         derived_item(out, item, rep, tmpdir)
+                    elif item["type"] == "unifier_gen":
+                        unifier_gen_item(out, item, rep, tmpdir)
                     else:
                         bpseq_item(out, item, rep, tmpdir)
                 except Exception as e:  # noqa: BLE001 - an exception is an output too, and must be the same everywhere
                     emit(out, item["id"], "exception", rep, "%s: %s" % (type(e).__name__, e), False)
                 finally:
                     pulp.LpSolverDefault = default_solver
-                out.write("T %s %d %.2f\n" % (item["id"], rep, time.time() - t1))
+                out.write("T %s %d %.2f\n" % (item["id"], rep, time.monotonic() - t1))
                 if stop_after == "%s:%d" % (item["id"], rep):
                     stopped = True
-        out.write("E wall=%.1f\n" % (time.time() - t0))
+        out.write("E wall=%.1f\n" % (time.monotonic() - t0))
 
 
 if __name__ == "__main__":
